@@ -57,15 +57,15 @@ theorem resp_roundtrip {V : Type} (produces : List String) (r : RRef2 V) (h : re
     refine ⟨_, rfl, ?_⟩
     cases k <;> simp_all [respSimpleBack, respA2, toV3RK, fromV3RK, absRK2, RK.isV2]
   | val x =>
-    simp only [respSimpleBack, Bool.and_eq_true, Bool.not_eq_true'] at h
-    obtain ⟨⟨⟨hh, hsOK⟩, hsNB⟩, hlossy⟩ := h
+    simp only [respSimpleBack, Bool.and_eq_true] at h
+    obtain ⟨⟨hh, hsOK⟩, hsNB⟩ := h
     have hback : x.headers.all headerOKBack = true := by
       apply List.all_eq_true.mpr
       intro a ha
       have := List.all_eq_true.mp hh a ha
       simp only [headerSimpleBack, Bool.and_eq_true] at this
       simpa [headerOKBack] using this.1
-    have hrt := roundtripResp_partial produces (.val x) (by simpa [respLossy] using hlossy) ⟨hback, hsOK⟩
+    have hrt := roundtripResp produces (.val x) ⟨hback, hsOK⟩
     refine ⟨fromV3Resp (toV3Resp produces (.val x)), ?_, hrt⟩
     have hhe := headers_exec x.headers hh
     simp only [toV3Resp, fromV3RespO, fromV3Resp]
@@ -280,11 +280,7 @@ theorem api2_roundtrip_simple {V : Type} (d : Doc2 V) (h : docSimpleBack d = tru
       simp only [List.nil_append, List.append_nil, dedupLast_nodup _ hnd]
       exact hsh2
     · intro x
-      have hs : ∀ y ∈ d.loc.schemes, y = "http" ∨ y = "https" := by
-        intro y hy
-        have := List.all_eq_true.mp hschemes y hy
-        simpa using this
-      exact servers_roundtrip_partial d.loc hhost hs x
+      exact servers_roundtrip_partial d.loc hhost (fun y hy => List.all_eq_true.mp hschemes y hy) x
 
 /-- non-vacuity of `api2_roundtrip_simple`: path parameter, constrained array query parameter, a response with
     headers but no schema, a response with a referenced schema, a shared response, two definitions (reference,
